@@ -10,6 +10,9 @@ SHIPPED = LibCfg(name="shipped")   # gcc -O3 -std=c99, -msse2/-mavx2 per file, h
 W32_PORTABLE = LibCfg(name="w32-bytewise-neutral", defs=["SKINNY_VERIF_64BIT=0", "SKINNY_VERIF_UNALIGNED=0", "SKINNY_VERIF_LITTLE_ENDIAN=0",
                                                          "SKINNY_VERIF_VEC128_MATH=0", "SKINNY_VERIF_VEC256_MATH=0"])
 W32_LE = LibCfg(name="w32", defs=["SKINNY_VERIF_64BIT=0"])
+# 64-bit words with the byte-order-neutral helpers: what a 64-bit target that the header does not classify as little-endian compiles
+W64_PORTABLE = LibCfg(name="w64-bytewise-neutral", defs=["SKINNY_VERIF_64BIT=1", "SKINNY_VERIF_UNALIGNED=0", "SKINNY_VERIF_LITTLE_ENDIAN=0",
+                                                         "SKINNY_VERIF_VEC128_MATH=0", "SKINNY_VERIF_VEC256_MATH=0"])
 
 CLANG_SHIPPED = LibCfg(name="clang-O3", cc="clang")      # same flags, other compiler: unspecified evaluation order, other code generation
 
@@ -17,7 +20,8 @@ def with_portable(name, src, tier, q, t, shards=16):
     return [Unit(name, src, SHIPPED, cases=scale(tier, q, t), shards=shards - 6),
             Unit(name + "-clang", src, CLANG_SHIPPED, cases=scale(tier, q, t), shards=2 if tier == "quick" else 8),
             Unit(name + "-w32", src, W32_LE, cases=scale(tier, q, t), shards=2 if tier == "quick" else 8),
-            Unit(name + "-w32-portable", src, W32_PORTABLE, cases=scale(tier, q, t), shards=2 if tier == "quick" else 8)]
+            Unit(name + "-w32-portable", src, W32_PORTABLE, cases=scale(tier, q, t), shards=2 if tier == "quick" else 8),
+            Unit(name + "-w64-portable", src, W64_PORTABLE, cases=scale(tier, q, t), shards=2 if tier == "quick" else 8)]
 
 MODEL_ASSUME = [
     "reference models in harness/ref.hpp are correct transcriptions of the SKINNY / MANTIS specifications "
@@ -57,7 +61,19 @@ GEN_NOTE = (". Shared generator features: byte strings are uniform, pseudo-rando
 
 
 # ----------------------------------------------------------------------------- C05
+def c05_post(cov):
+    cl = cov.get("classes", {})
+    hit = {k[5:]: v for k, v in cl.items() if k.startswith("cell/")}
+    want = set()
+    for kb, bes in (("c128", (0, 128, 256)), ("c128t", (0, 128, 256)), ("c64", (0, 128)), ("c64t", (0, 128)), ("cm", (0, 128))):
+        for be in bes:
+            for c in ("default-counter", "short-counter", "null-counter", "carry>=2bytes", "wrap-around", "zero-length-call", "in-place", "odd-placement", "stream>256B", "with-bystander-objects") + (("ragged-batch-crossing",) if be else ()):
+                want.add("%s/be%d/%s" % (kb, be, c))
+    cov["stream_class_matrix"] = dict(rule="cell = cipher flavour / back end / class of stream (classes as in `classes`)", cells_expected=len(want),
+                                      cells_hit=len(want & set(hit)), cells_never_generated=sorted(want - set(hit)), thinnest_cells=sorted((v, k) for k, v in hit.items() if k in want)[:6])
+
 prop("C05",
+     post_cov=c05_post,
      fuzz=dict(prop=5, workers=8, seconds=120),
      units=lambda tier: [Unit("c05", "c05.cpp", SHIPPED, cases=scale(tier, 30000, 500000), shards=14),
                          Unit("c05-clang", "c05.cpp", CLANG_SHIPPED, cases=scale(tier, 30000, 500000), shards=2 if tier == "quick" else 8),
@@ -259,7 +275,32 @@ def mon_units(name, src, tier, q, t, asan_share=0.3, args=()):
             Unit(name + "-asan", [src, "mon_alloc.c"], ASAN_MON, cases=scale(tier, int(q * asan_share), int(t * asan_share)),
                  shards=4 if tier == "quick" else 16, link_flags=["-fsanitize=address,undefined"], env=ASAN_ENV, args=list(args))]
 
+def c15_post(cov):
+    cl = cov.get("classes", {})
+    tr = {k[6:]: v for k, v in cl.items() if k.startswith("trans/")}
+    want = set()
+    for kind, caps in (("c128", (0, 128, 256)), ("c64", (0, 128)), ("cm", (0, 128)), ("p128", (0, 128, 256)), ("p64", (0, 128)), ("pm", (0, 128))):
+        ctr = kind[0] == "c"
+        calls = ["cleanup", "data", "set_key"] + (["set_counter", "set_tweak"] if ctr else []) + (["set_tweaked_key"] if kind in ("c128", "c64") else []) + (["swap"] if kind == "pm" else [])
+        for c in calls:
+            want.add("%s/zeroed->%s" % (kind, c))
+        for cap in caps:
+            o = "%s@cap%d" % (kind, cap)
+            for st in ("zeroed", "garbage", "cleaned", "failed"):
+                want.add("%s/%s->init" % (o, st))
+            for st in ("fresh", "keyed", "cleaned", "failed"):
+                for c in calls:
+                    if c == "swap" and st == "fresh":
+                        continue
+                    want.add("%s/%s->%s" % (o, st, c))
+    cov["life_cycle_matrix"] = dict(
+        rule="cell = object kind @ requested back end / state of the object -> call made on it (states from the library's own return values: zeroed, "
+             "garbage, fresh, keyed, cleaned, failed); expected = every call the API allows in that state (init of a live object and calls on garbage are caller misuse)",
+        cells_expected=len(want), cells_hit=len(want & set(tr)), cells_never_generated=sorted(want - set(tr))[:40],
+        thinnest_cells=sorted((v, k) for k, v in tr.items() if k in want)[:6])
+
 prop("C15",
+     post_cov=c15_post,
      fuzz=dict(prop=15, workers=8, seconds=120),
      units=lambda tier: mon_units("c15", "c15.cpp", tier, 15000, 300000),
      level="exploration",
@@ -296,7 +337,11 @@ prop("C16",
      design_ref="DESIGN.md#c16")
 
 prop("C17",
-     units=lambda tier: [Unit("c17", ["c17.cpp", "mon_alloc.c"], SHIPPED_MON, cases=scale(tier, 20000, 400000), shards=16)],
+     units=lambda tier: [Unit("c17", ["c17.cpp", "mon_alloc.c"], SHIPPED_MON, cases=scale(tier, 20000, 400000), shards=12 if tier == "quick" else 16),
+                         # whether a wipe before free() survives is the compiler's decision under the flags in force: also the library
+                         # exactly as the repository's Makefile builds it, and a clang -O3 build
+                         Unit("c17-make", ["c17.cpp", "mon_alloc.c"], LibCfg(name="as-built-by-make+allocmon", make=True, alloc_redirect=True), cases=scale(tier, 20000, 400000), shards=2 if tier == "quick" else 8),
+                         Unit("c17-clang", ["c17.cpp", "mon_alloc.c"], LibCfg(name="clang-O3+allocmon", cc="clang", alloc_redirect=True), cases=scale(tier, 20000, 400000), shards=2 if tier == "quick" else 8)],
      level="exploration",
      rule=("histories that key an object, process data (leaving a partially consumed keystream batch) and end in cleanup, for "
            "every CTR / parallel-ECB kind and back end; at every free() made by the library the monitor inspects the whole "
@@ -391,6 +436,8 @@ def c08_units(tier):
     u = [Unit("c08", "c08.cpp", SHIPPED, cases=scale(tier, 900, 12000), shards=12 if tier == "quick" else 16, wrapper=VG, timeout=6000),
          Unit("c08-w32", "c08.cpp", W32, cases=scale(tier, 500, 6000), shards=2 if tier == "quick" else 8, wrapper=VG, timeout=3000),
          Unit("c08-novec256", "c08.cpp", NOVEC256, cases=scale(tier, 500, 6000), shards=2 if tier == "quick" else 8, wrapper=VG, timeout=3000)]
+    # ... and the binary exactly as the repository's Makefile builds it
+    u.append(Unit("c08-make", "c08.cpp", LibCfg(name="as-built-by-make", make=True), cases=scale(tier, 500, 6000), shards=2 if tier == "quick" else 8, wrapper=VG, timeout=3000))
     if tier == "thorough":
         u += [Unit("c08-nosimd", "c08.cpp", NOSIMD, cases=6000, shards=8, wrapper=VG, timeout=6000),
               Unit("c08-w32-portable", "c08.cpp", W32_PORTABLE, cases=6000, shards=8, wrapper=VG, timeout=6000),
@@ -468,7 +515,31 @@ def c09_units(tier):
             # output buffer exactly k * 2^32 bytes after the input buffer (only the touched pages are mapped)
             Unit("c09-far", "big.cpp", SHIPPED, cases=scale(tier, 400, 5000), shards=4 if tier == "quick" else 16, args=["--family", "far"])]
 
+def c09_post(cov):
+    import collections
+    cl = cov.get("classes", {})
+    fa = collections.defaultdict(set); ov = collections.defaultdict(set); ip = []
+    for k in cl:
+        if k.startswith("place/"):
+            f, a = k[6:].rsplit("@", 1); fa[f].add(int(a))
+        elif k.startswith("overlap/"):
+            _, f, d = k.split("/"); ov[f].add(int(d))
+        elif k.startswith("inplace/"):
+            ip.append(k[8:])
+    want_ov = {f: (31 if ("128" in f) else 15) for f in ("k128.enc", "k128.dec", "t128.enc", "t128.dec", "k64.enc", "k64.dec", "t64.enc", "t64.dec", "mk.crypt", "mk.crypt_tw")}
+    want_ip = ["c128.encrypt@be0", "c128.encrypt@be128", "c128.encrypt@be256", "c64.encrypt@be0", "c64.encrypt@be128", "cm.encrypt@be0", "cm.encrypt@be128",
+               "p128.enc@be0", "p128.enc@be128", "p128.enc@be256", "p128.dec@be0", "p128.dec@be128", "p128.dec@be256",
+               "p64.enc@be0", "p64.enc@be128", "p64.dec@be0", "p64.dec@be128", "pm.crypt@be0", "pm.crypt@be128"]
+    cov["placement_matrix"] = dict(
+        rule="cell = function @ back end / pointer argument @ address mod 16 (arena placements; offsets are relative to a 64-byte boundary); "
+             "overlap = distance between output and input of a single-block call; in-place = bulk call with output == input",
+        function_argument_pairs=len(fa), pairs_with_all_16_residues=sum(1 for v in fa.values() if len(v) == 16),
+        pairs_missing_residues={f: sorted(set(range(16)) - v) for f, v in fa.items() if len(v) < 16},
+        single_block_overlap_distances={f: "%d of %d" % (len(ov.get(f, ())), n) for f, n in want_ov.items()},
+        bulk_in_place_not_generated=[f for f in want_ip if f not in ip])
+
 prop("C09",
+     post_cov=c09_post,
      units=c09_units,
      level="exploration",
      rule=("valid call programs over all object kinds and back ends with every pointer argument (key, tweak, counter, input, "
